@@ -155,7 +155,7 @@ def spl_exact_cases(seed, count, tag):
         made += 1
         steps = [dict(op="new", g=0, ops=[gen.op_single()]), dict(op="bl", g=0, bl=bl),
                  dict(op="update", g=0, z=dict(k="int", m=hp, e=0))]
-        for tol in ("1e-3", "1e-6"):
+        for tol in ("1e-3", "1e-6", "1e-1", "1e-2"):
             steps.append(dict(op="spl", g=0, m=str(m), n={1: "0.5", 2: "1", 4: "2", 6: "3"}[ncode], tol=tol, dt="1",
                               Ka=[str(x) for x in K], A=[str(x) for x in A], h=[str(x) for x in h],
                               expect=hp, f=f, ncode=ncode, setters=1 if (tol == "1e-6" and rng.random() < 0.5) else 0))
